@@ -36,8 +36,9 @@ theorem every_method_has_entry : ∀ m ∈ Gen.methods, (lookup Gen.policy m).is
 theorem registered_are_validated :
     (∀ t ∈ Gen.registeredTypes, t ∈ Gen.validatedTypes) ∧ (∀ m ∈ Gen.methods, m ∈ Gen.validatedMethods) := by decide
 
-/-- every `rpc.NewServer` in `newRPCServer` serves the cluster host with the closure installed -/
-theorem all_servers_guarded : 0 < Gen.newServerCalls ∧ Gen.newServerCallsGuarded = Gen.newServerCalls := by decide
+/-- whatever `Config.Tracing` is, the `rpc.NewServer` that `newRPCServer` reaches serves the cluster host
+    with the closure installed -/
+theorem all_servers_guarded : ∀ tracing : Bool, Gen.serverGuarded tracing = true := by decide
 
 /-- `Config.Default()` installs the table the theorems are about -/
 theorem config_installs_table : Gen.configPolicyIsDefault = true := by decide
@@ -205,7 +206,8 @@ theorem rpc_model_meets_spec (i : RpcInput) (hk : i.kind ≠ .custom) :
             if authorizeWith Gen.closure (applyOverrides Gen.policy (kindOverrides i.kind)) (specTrusted i.ts p) i.ep
             then Obs.passed else Obs.refused := by
           have := modelTrusted_eq_spec i.ts i.self p hps
-          simp only [modelObs, hreg, Bool.not_true, Bool.false_eq_true, if_false, passes, hc]
+          simp only [modelObs, hreg, Bool.not_true, Bool.false_eq_true, if_false, passes, hc,
+            all_servers_guarded i.tracing, Bool.false_or]
           unfold modelTrusted at this
           rw [this]
         rw [hobs]
@@ -223,7 +225,7 @@ theorem rpc_model_meets_spec (i : RpcInput) (hk : i.kind ≠ .custom) :
           · simp [hl]
   · simp [hap]
 
-example : rpcApplies ⟨.shipped, ⟨.crdt, [some 1], []⟩, 0, .remote 2, "Cluster.Pin", true⟩ = true := by decide
+example : rpcApplies ⟨.shipped, true, ⟨.crdt, [some 1], []⟩, 0, .remote 2, "Cluster.Pin", true⟩ = true := by decide
 
 /-- IsTrustedPeer: the model's answer is the statement's for every remote peer. -/
 theorem trust_model_meets_spec (i : TrustInput) : trustHolds i (modelTrusted i.ts i.self i.p) = true := by
